@@ -1,4 +1,4 @@
-import TrackVerif.LT.StructLemmas
+import TrackVerif.LT.AttrLemmas
 /-
   The structure theorem: for every value, whatever the marshaller prints for it is decoded — by
   the decoder's field routing over the content the XML reader delivers — to exactly what the
@@ -15,10 +15,13 @@ structure SchemaFacts (s : Schema) : Prop where
   /-- a type with only a MarshalXML is decoded as a plain scalar -/
   m_only_simple : ∀ n, s.marshalers.contains n = true → s.unmarshalers.contains n = false →
     isSimple (kindOf s 8 (.named n)) = true
-  /-- no struct field is an XML attribute -/
-  no_attr : ∀ n fields, s.fieldsOf n = some fields → ∀ f ∈ dataFields fields, f.attr = false
+  /-- the only fields carried as XML attributes are plain integers, always written -/
+  attr_fields : ∀ n fields, s.fieldsOf n = some fields → ∀ f ∈ dataFields fields, f.attr = true →
+    f.typ = .basic "int" ∧ f.omitempty = false
   /-- element names are distinct within a struct -/
   distinct : ∀ n fields, s.fieldsOf n = some fields → DistinctNames (dataFields fields)
+  /-- attribute names are distinct within a struct -/
+  distinct_attr : ∀ n fields, s.fieldsOf n = some fields → DistinctAttrNames (dataFields fields)
 
 theorem customU_none_of_customM_none (s : Schema) (hs : SchemaFacts s) (ty : LtType) (h : customM s ty = none) :
     customU s ty = none := by
@@ -55,17 +58,57 @@ theorem textOf_leaf (txt : List Char) :
   · subst h; simp [textOf, Text.substitute]
   · simp [h, textOf]
 
-theorem zip_filter_attr (dfs : List LtField) (fs : List V) (h : ∀ f ∈ dfs, f.attr = false) :
-    (dfs.zip fs).filter (·.1.attr) = [] ∧ (dfs.zip fs).filter (fun p => !p.1.attr) = dfs.zip fs := by
-  constructor
-  · apply List.filter_eq_nil_iff.mpr
-    intro p hp
-    have := h p.1 (List.of_mem_zip hp).1
-    simp [this]
-  · apply List.filter_eq_self.mpr
-    intro p hp
-    have := h p.1 (List.of_mem_zip hp).1
-    simp [this]
+theorem attrVals_eq_filter (name : String) : ∀ (l : List (String × List Char)),
+    attrVals name l = (l.filter (fun a => a.1 == name)).map (·.2)
+  | [] => rfl
+  | a :: r => by
+    by_cases h : a.1 = name
+    · simp [attrVals, h, attrVals_eq_filter name r]
+    · simp [attrVals, h, attrVals_eq_filter name r]
+
+theorem attrOf_names (s : Schema) (p : LtField × V) (r : List (String × List Char)) (h : attrOf s p = .ok r) :
+    ∀ a ∈ r, a.1 = p.1.xmlName := by
+  unfold attrOf at h
+  split at h
+  · injection h with h; subst h; intro a ha; cases ha
+  · obtain ⟨t, _, e⟩ := map_ok_inv _ _ _ h
+    subst e; intro a ha; simp at ha; subst ha; rfl
+
+theorem attrOf_inv (s : Schema) (p : LtField × V) (r : List (String × List Char)) (hom : p.1.omitempty = false)
+    (h : attrOf s p = .ok r) : ∃ t, simpleText (kindOf s 8 p.1.typ) p.2 = .ok t ∧ r = [(p.1.xmlName, t)] := by
+  unfold attrOf at h
+  simp only [hom, Bool.false_and, Bool.false_eq_true, if_false] at h
+  obtain ⟨t, h1, e⟩ := map_ok_inv _ _ _ h
+  exact ⟨t, h1, e⟩
+
+/-- distinct names among the fields selected by `pred` (attributes, or elements) -/
+theorem pairwise_zip_filter (dfs : List LtField) (fs : List V) (a : Bool) (pred : LtField × V → Bool)
+    (hpred : ∀ p, pred p = true → p.1.attr = a)
+    (hd : ∀ (i j : Nat) (f f' : LtField), dfs[i]? = some f → dfs[j]? = some f' → f.attr = a → f'.attr = a →
+      f.xmlName = f'.xmlName → i = j) :
+    ((dfs.zip fs).filter pred).Pairwise (fun p p' => p.1.xmlName ≠ p'.1.xmlName) := by
+  have h0 : (dfs.zip fs).Pairwise (fun p p' => p.1.attr = a → p'.1.attr = a → p.1.xmlName ≠ p'.1.xmlName) := by
+    rw [List.pairwise_iff_getElem]
+    intro i j hi hj hij h1 h2 e
+    simp only [List.getElem_zip] at h1 h2 e
+    have hi' : i < dfs.length := by simp only [List.length_zip] at hi; omega
+    have hj' : j < dfs.length := by simp only [List.length_zip] at hj; omega
+    have := hd i j dfs[i] dfs[j] (List.getElem?_eq_getElem hi') (List.getElem?_eq_getElem hj') h1 h2 e
+    omega
+  have h1 := List.Pairwise.filter pred h0
+  refine List.Pairwise.imp_of_mem ?_ h1
+  intro p p' hp hp' hR
+  exact hR (hpred p (List.mem_filter.mp hp).2) (hpred p' (List.mem_filter.mp hp').2)
+
+theorem leafRT_int (s : Schema) (cur v q : V) (t : List Char) (h : leafRT s (.basic "int") cur v = some q)
+    (ht : simpleText .int v = .ok t) : copyValue .int t = .ok q := by
+  have hk : kindOf s 8 (.basic "int") = .int := rfl
+  unfold leafRT leafText leafParse at h
+  simp only [customM, customU, headName, hk, ht, isSimple, if_true] at h
+  rw [substitute_plain t (simpleText_int_plain v t ht)] at h
+  cases hc : copyValue .int t with
+  | ok q0 => simp only [hc] at h; injection h with h; rw [h]
+  | _ => simp [hc] at h
 
 /-- decoding the items of a slice, one element each -/
 theorem slice_fold (s : Schema) (f : Nat) (name : String) (om : Bool) (ty t' : LtType) (d : Nat)
@@ -218,83 +261,93 @@ theorem decode_marshal (s : Schema) (hs : SchemaFacts s) :
         rw [mv] at rv; injection rv with rv; subst rv
         rw [mf] at rf; injection rf with rf; subst rf
         subst rcur; subst hq; subst mts
-        have hna := hs.no_attr n fields mf
+        have haf := hs.attr_fields n fields mf
         have hd := hs.distinct n fields mf
-        obtain ⟨hfa, hfk⟩ := zip_filter_attr (dataFields fields) fs hna
-        rw [hfa] at mattrs
-        rw [hfk] at mkids
-        cases mattrs
-        simp only [List.flatten_nil, entries, List.map_cons, List.map_nil, attrsOfTree]
+        have hda := hs.distinct_attr n fields mf
+        simp only [entries, List.map_cons, List.map_nil, attrsOfTree]
         rw [foldField_single]
         simp only
-        rw [unmarshal_struct s f ty n fields cs [] _ mk (customU_none_of_customM_none s hs ty mc) mf]
-        simp only [List.foldlM_nil, pure, Outcome.bind]
-        -- every field's own children decode to the field's leaf-wise round trip
-        have key : ∀ (i : Nat) (fl : LtField), (dataFields fields)[i]? = some fl →
-            foldField (unmarshalNode s f) fl.typ (cs.getD i .nil)
-              (fieldKids fl.xmlName (contentOf d (.node name [] kidss.flatten))) = .ok (qs.getD i .nil) := by
+        rw [unmarshal_struct s f ty n fields cs _ _ mk (customU_none_of_customM_none s hs ty mc) mf]
+        have hqlen : qs.length = (dataFields fields).length := by
+          rw [← rall.length_eq, List.length_zip, List.length_zip]; omega
+        -- what each field gets
+        have hidx : ∀ (i : Nat) (fl : LtField), (dataFields fields)[i]? = some fl →
+            ∃ (x c qi : V), fs[i]? = some x ∧ cs[i]? = some c ∧ qs[i]? = some qi ∧
+              ((fl, x) ∈ (dataFields fields).zip fs) ∧ rtField s (rtOf s f) (fl, c, x) = some qi := by
           intro i fl hfl
           have hi : i < (dataFields fields).length := (List.getElem?_eq_some_iff.mp hfl).1
           have hfsi : fs[i]? = some fs[i] := List.getElem?_eq_getElem (by omega)
           have hcsi : cs[i]? = some cs[i] := List.getElem?_eq_getElem (by omega)
-          obtain ⟨r, hr1, hr2⟩ := mkids.get i (fl, fs[i]) (by
-            rw [List.getElem?_zip_eq_some]; exact ⟨hfl, hfsi⟩)
           obtain ⟨qi, hq1, hq2⟩ := rall.get i (fl, cs[i], fs[i]) (by
             rw [List.getElem?_zip_eq_some]
             refine ⟨hfl, ?_⟩
             rw [List.getElem?_zip_eq_some]; exact ⟨hcsi, hfsi⟩)
-          have hattr : fl.attr = false := hna fl (List.mem_of_getElem? hfl)
-          simp only [rtField, hattr, Bool.false_eq_true, if_false] at hq2
-          rw [fieldKids_content]
-          have hfilter := filter_flatten_names kidss ((dataFields fields).map (·.xmlName))
-            (by rw [List.length_map, ← mkids.length_eq, List.length_zip]; omega)
-            (by
-              intro j nm r' hj hr'
-              rw [List.getElem?_map] at hj
-              cases hfj : (dataFields fields)[j]? with
-              | none => simp [hfj] at hj
-              | some fj =>
-                simp only [hfj, Option.map_some, Option.some.injEq] at hj
-                have hjlt : j < (dataFields fields).length := (List.getElem?_eq_some_iff.mp hfj).1
-                obtain ⟨r'', h1, h2⟩ := mkids.get j (fj, fs[j]'(by omega)) (by
-                  rw [List.getElem?_zip_eq_some]; exact ⟨hfj, List.getElem?_eq_getElem (by omega)⟩)
-                rw [hr'] at h1; injection h1 with h1; subst h1
-                rw [← hj]
-                exact marshalTrees_names s f _ _ _ _ _ h2)
-            (by
-              intro i' j' a h1 h2
-              rw [List.getElem?_map] at h1 h2
-              cases hfi : (dataFields fields)[i']? with
-              | none => simp [hfi] at h1
-              | some fi =>
-                cases hfj : (dataFields fields)[j']? with
-                | none => simp [hfj] at h2
-                | some fj =>
-                  simp only [hfi, hfj, Option.map_some, Option.some.injEq] at h1 h2
-                  exact hd i' j' fi fj hfi hfj (hna fi (List.mem_of_getElem? hfi)) (hna fj (List.mem_of_getElem? hfj))
-                    (by rw [h1, h2]))
-            i fl.xmlName (by rw [List.getElem?_map, hfl]; rfl)
-          rw [hfilter]
-          have e1 : kidss.getD i [] = r := by simp [List.getD, hr1]
-          have e2 : cs.getD i .nil = cs[i] := by simp [List.getD, hcsi]
-          have e3 : qs.getD i .nil = qi := by simp [List.getD, hq1]
-          rw [e1, e2, e3]
-          exact ih fl.xmlName fl.omitempty fl.typ cs[i] fs[i] r qi (d + 1) hr2 hq2
-        obtain ⟨fs', hf1, hf2, hf3, _⟩ := foldKids_ok (unmarshalNode s f) (dataFields fields) hd
-          (contentOf d (.node name [] kidss.flatten)) cs rlen2.symm
-          (fun i fl hfl _ => ⟨_, key i fl hfl⟩)
+          refine ⟨fs[i], cs[i], qi, hfsi, hcsi, hq1, ?_, hq2⟩
+          exact List.mem_iff_getElem?.mpr ⟨i, by rw [List.getElem?_zip_eq_some]; exact ⟨hfl, hfsi⟩⟩
+        -- attributes
+        have keyA : ∀ (i : Nat) (fl : LtField), (dataFields fields)[i]? = some fl → fl.attr = true →
+            foldAttr (kindOf s 8 fl.typ) (cs.getD i .nil) (attrVals fl.xmlName attrs.flatten) = .ok (qs.getD i .nil) := by
+          intro i fl hfl hattr
+          obtain ⟨x, c, qi, hx, hc, hqi, hmem, hrt⟩ := hidx i fl hfl
+          obtain ⟨htyp, hom⟩ := haf fl (List.mem_of_getElem? hfl) hattr
+          obtain ⟨r, hzip, hR⟩ := mattrs.mem_zip (fl, x) (List.mem_filter.mpr ⟨hmem, by simpa using hattr⟩)
+          obtain ⟨t, ht, hr⟩ := attrOf_inv s (fl, x) r hom hR
+          have hsel := filter_flatten_key (fun (p : LtField × V) => p.1.xmlName) (fun (a : String × List Char) => a.1)
+            (fun p r => attrOf s p = .ok r) mattrs (fun p r hpr => attrOf_names s p r hpr)
+            (pairwise_zip_filter (dataFields fields) fs true (·.1.attr) (fun p hp => hp) hda) (fl, x) r hzip
+          simp only at hsel
+          rw [attrVals_eq_filter, hsel, hr]
+          simp only [List.map_cons, List.map_nil, foldAttr_cons, foldAttr_nil]
+          simp only [rtField, hattr, if_true, hom, Bool.false_eq_true, if_false, htyp] at hrt
+          rw [htyp] at ht ⊢
+          have hk : kindOf s 8 (.basic "int") = .int := rfl
+          rw [hk] at ht ⊢
+          rw [leafRT_int s c x qi t hrt ht]
+          simp [Outcome.bind, List.getD, hqi]
+        obtain ⟨fs1, ha1, ha2, ha3, ha4⟩ := foldAttrs_ok s (dataFields fields) hda attrs.flatten cs rlen2.symm
+          (fun i fl hfl hattr => ⟨_, keyA i fl hfl hattr⟩)
+        rw [ha1]
+        simp only [Outcome.bind]
+        -- child elements
+        have keyK : ∀ (i : Nat) (fl : LtField), (dataFields fields)[i]? = some fl → fl.attr = false →
+            foldField (unmarshalNode s f) fl.typ (fs1.getD i .nil)
+              (fieldKids fl.xmlName (contentOf d (.node name attrs.flatten kidss.flatten))) = .ok (qs.getD i .nil) := by
+          intro i fl hfl hattr
+          obtain ⟨x, c, qi, hx, hc, hqi, hmem, hrt⟩ := hidx i fl hfl
+          obtain ⟨r, hzip, hR⟩ := mkids.mem_zip (fl, x) (List.mem_filter.mpr ⟨hmem, by simp [hattr]⟩)
+          have hsel := filter_flatten_key (fun (p : LtField × V) => p.1.xmlName) nameOfTree
+            (fun (p : LtField × V) r => marshalTrees s f p.1.xmlName p.1.omitempty p.1.typ p.2 = .ok r) mkids
+            (fun p r hpr => marshalTrees_names s f _ _ _ _ _ hpr)
+            (pairwise_zip_filter (dataFields fields) fs false (fun p => !p.1.attr) (fun p hp => by simpa using hp) hd)
+            (fl, x) r hzip
+          simp only at hsel
+          rw [fieldKids_content, hsel, ha4 i fl hfl hattr]
+          simp only [rtField, hattr, Bool.false_eq_true, if_false] at hrt
+          have e2 : cs.getD i .nil = c := by simp [List.getD, hc]
+          have e3 : qs.getD i .nil = qi := by simp [List.getD, hqi]
+          rw [e2, e3]
+          exact ih fl.xmlName fl.omitempty fl.typ c x r qi (d + 1) hR hrt
+        obtain ⟨fs', hf1, hf2, hf3, hf4⟩ := foldKids_ok (unmarshalNode s f) (dataFields fields) hd
+          (contentOf d (.node name attrs.flatten kidss.flatten)) fs1 ha2
+          (fun i fl hfl hattr => ⟨_, keyK i fl hfl hattr⟩)
         rw [hf1]
         simp only [Outcome.map]
-        have hqlen : qs.length = (dataFields fields).length := by
-          rw [← rall.length_eq, List.length_zip, List.length_zip]; omega
         have : fs' = qs := by
           apply ext_getD fs' qs .nil (by omega)
           intro i hi
           have hfl : (dataFields fields)[i]? = some (dataFields fields)[i] := List.getElem?_eq_getElem (by omega)
-          have h1 := hf3 i _ hfl (hna _ (List.mem_of_getElem? hfl))
-          rw [key i _ hfl] at h1
-          injection h1 with h1
-          exact h1.symm
+          cases hattr : (dataFields fields)[i].attr with
+          | false =>
+            have h1 := hf3 i _ hfl hattr
+            rw [keyK i _ hfl hattr] at h1
+            injection h1 with h1
+            exact h1.symm
+          | true =>
+            have h1 := ha3 i _ hfl hattr
+            rw [keyA i _ hfl hattr] at h1
+            injection h1 with h1
+            rw [hf4 i _ hfl hattr]
+            exact h1.symm
         rw [this]
         rfl
       | omitted r1 r2 _ => simp [r1, r2] at mom
